@@ -58,6 +58,29 @@ PROPERTIES = {
         "not_decided": ["parse_packet / serialize_packet (crc32c external)", "single-burst checksum claim",
                         "encode_params/decode_params value round trip", "SackChunk.__bytes__ / body properties of Init, ForwardTsn"],
     },
+    "C10": {
+        "claim": "Proof, for each ring capacity 1, 2, 4, ..., 256 (everything else symbolic: any sequence numbers incl. "
+                 "wraparound, timestamps, prefetch, payloads, audio/video), that JitterBuffer.__init__/add/_remove_frame/remove/"
+                 "smart_remove establish and preserve the ring invariant (slot p holds only a packet with seq % capacity == p "
+                 "inside the window [_origin, _origin+capacity): at most `capacity` packets are ever held), never raise, and: "
+                 "_remove_frame releases exactly the n >= 1 packets at the front of the ring, which have consecutive sequence "
+                 "numbers, one common timestamp equal to the frame's, data = their payloads concatenated in order, the next held "
+                 "packet starting a different timestamp; remove/smart_remove clear exactly the stated slots; add drops a packet "
+                 "1..99 positions late without any change, only ever holds the new packet or packets held before, a video buffer "
+                 "that discards a held packet without releasing it returns pli=True, the origin only moves forward unless the "
+                 "100-late reset fires, and a released frame is made of the new packet and packets held at entry (composition "
+                 "clause). Reduced: the statement over whole arrival histories (every frame released exactly once) is not decided.",
+        "note": "Capacities are verified per concrete power of two because `% capacity` is non-linear for a symbolic "
+                "capacity; the class invariant pins self._capacity == CAP. add()'s composition clause is stated for every "
+                "path except the overflow eviction (smart_remove) path, where the frame's integrity rests on _remove_frame's "
+                "contract and the ring invariant. RtpPacket._data is the attribute RTCRtpReceiver attaches before add().",
+        "design_ref": "DESIGN.md 4.10, 9",
+        "trusted_base": COMMON,
+        "not_decided": ["release completeness over arrival histories ('every frame except the trailing prefetch window is "
+                        "released exactly once')", "no packet in two frames / increasing frame order across calls (follows "
+                        "from the per-call contracts by induction over calls; the induction is not mechanised)",
+                        "composition clause of add() on the overflow-eviction path", "capacities other than 1..256 powers of two"],
+    },
     "C15": {
         "claim": "Proof that every integer bitrate in [0, 2^64) with up to 255 32-bit SSRCs is encodable by pack_remb_fci "
                  "and decodes to the listed SSRCs exactly, with mantissa*2^exp <= bitrate. Reduced: rate.py (estimator, "
@@ -119,7 +142,6 @@ NOT_APPLICABLE = {
     "C04": "OpenSSL handshake, key export and libsrtp are external C code; the repo-owned fingerprint comparison contract was not built (DESIGN 4.4)",
     "C06": _NOT_BUILT + " (_maybe_abandon/_update_advanced_peer_ack_point/prune_chunks; F-15 stays unreported by any check)",
     "C09": "SDP parse/serialise is string/regex code; no contract within reach of the installed solvers decides the round trip (DESIGN 4.9)",
-    "C10": _NOT_BUILT + " (JitterBuffer ring invariant, DESIGN 4.10 / Appendix A)",
     "C11": _NOT_BUILT + " (NackGenerator, _retransmit, RTX); closed-loop recovery is outside contracts (DESIGN 4.11)",
     "C12": _NOT_BUILT + " (RtpRouter; dict/set-heavy code, DESIGN 4.12)",
     "C13": _NOT_BUILT + " (DCEP codec, _setReadyState, bufferedAmount accounting; F-16 stays unreported by any check)",
